@@ -87,7 +87,13 @@ def search(pid, routine, failure, rep):
 
 
 def rerun(pid, w):
+    """returns True when the recorded input NO LONGER fails"""
     rc, hits = _run(w["replay_args"])
+    if rc == 2:
+        # routine without a dedicated replay entry: run its search again and look for the same case and input
+        rc2, all_hits = _run(["search", w["replay_args"][1], str(int(os.environ.get("VERIF_SEED", "0") or 0) + 1)])
+        hits = [h for h in all_hits if h.get("case") == w.get("case") and h.get("input") == w.get("input")]
+        rc = 1 if hits else 0
     for h in hits:
-        print("REPLAYED on real code: %s" % json.dumps(h))
+        print("REPLAYED on real code: %s" % json.dumps(h)[:800])
     return rc == 0
